@@ -104,6 +104,14 @@ def _stage_of(st, sconf):
         raise ValueError('realize: serverurl fallback: loop does not select the server configs of one family: ' + ast.unparse(it)[:120])
     bound, defaults, fmt, args, first = {}, [], None, None, False
     def key_of(e):
+        if (isinstance(e, ast.BoolOp) and isinstance(e.op, ast.Or) and len(e.values) == 2 and isinstance(e.values[1], ast.Constant)
+                and isinstance(e.values[1].value, str)):
+            k = key_of(e.values[0])                 # `config['host'] or 'localhost'`
+            if k == 'port':
+                raise ValueError('realize: serverurl fallback: a default for the port is not something the model knows')
+            if (k, e.values[1].value) not in defaults:
+                defaults.append((k, e.values[1].value))
+            return k
         s = ast.unparse(e)
         if isinstance(e, ast.Name) and e.id in bound:
             return bound[e.id]
